@@ -422,6 +422,12 @@ class Interp:
                 return FnV(v.path)
             if isinstance(v, (FnV, Ref, StaticRef)):
                 return v
+            if rv["kind"].startswith("PointerCoercion") and v is not TOP:
+                # &[T; N] -> &[T] and friends: the pointee is the same value
+                if isinstance(v, Agg) and v.kind == "array":
+                    from .stdmodels import Seq
+                    return Seq(v.fields)
+                return v
             if isinstance(v, Const) and rv["kind"].startswith("IntToInt"):
                 return v
             return TOP
@@ -639,9 +645,11 @@ class Interp:
                 r = self.apply_closure(f, list(tup.fields), st, depth)
                 if r is not None:
                     return r
+        self._cur_depth = depth
         r = self.dom.call(self, name, args, st, t, frame)
         if r is not None:
             return self._norm(r)
+        self._cur_depth = depth
         r = self.std_call(name, args, st)
         if r is not None:
             return self._norm(r)
